@@ -1,7 +1,7 @@
 """C12 -- derivative matrices of SmartRotation3D against the formal derivative of the reported rotation (back end B)."""
 import sys, os
 sys.path.insert(0, os.path.join(os.path.dirname(os.path.dirname(os.path.dirname(os.path.abspath(__file__)))), 'tools'))
-from emit_smt import app, land, num
+from emit_smt import app, land, num, add, sub, mul
 import symalg
 
 
@@ -48,6 +48,7 @@ def vcs(B):
             B.vc('dRTdAngles[%d,%d].is_dRdAngle_times_T' % (i, a), app('=', M[3 * i + a], want), functions=['SR__dRTdAngles'])
     B.take_obligations()
     pose_jacobian(B)
+    least_squares(B)
 
 
 def pose_jacobian(B):
@@ -116,3 +117,78 @@ def pose_jacobian(B):
         B.vc('pose_transform.J[4,%d].is_d_pitch_d_angle.magnitude' % (3 + k), app('=', mul(mul(J[6 * 4 + 3 + k], J[6 * 4 + 3 + k]), one_m), mul(d(2, 0, k), d(2, 0, k))), dom, functions=fp, timeout=30)
         B.vc('pose_transform.J[4,%d].is_d_pitch_d_angle.sign' % (3 + k), app('<=', mul(J[6 * 4 + 3 + k], d(2, 0, k)), '0.0'), dom, functions=fp, timeout=30)
         B.vc('pose_transform.J[5,%d].is_d_yaw_d_angle' % (3 + k), app('=', mul(J[6 * 5 + 3 + k], den_z), sub(mul(m(0, 0), d(1, 0, k)), mul(m(1, 0), d(0, 0, k)))), dom, functions=fp, timeout=30)
+
+
+LS_N, LS_M, LS_D = 2, 4, 3      # estimate size, allocated rows of J / Y (stale rows of an earlier, larger problem), data size
+LS_BOUND = 'LeastSquares<double> with estimate size %d, %d allocated rows, data size %d (dynamic-size Eigen members bound to these sizes)' % (LS_N, LS_M, LS_D)
+
+
+def least_squares(B):
+    """BOUNDED stand-in (fixed sizes, never counted as proved): 'the covariance reported by the least-squares solver equals the data variance
+    times the inverse normal matrix mapped through the configured (diagonal) preconditioner', on the real computeJTJ_, computeJTY_,
+    estimateUsingCholeskyDecomposition and computeEstimateCovariance from ANY prior state of the solver object.
+    Assumed: JtJ.ldlt().solve(I) returns the X with JtJ X = I (written adj/det)."""
+    N, M, D = LS_N, LS_M, LS_D
+    B.unit('src/regression/leastsquares/LeastSquares.cpp')
+    P = 'romea::core::LeastSquares<double>'
+    rec = 'LeastSquares_double'
+    B.prog.options['dyn_shapes'] = {rec: {'Ac_': (N, N), 'Bc_': (N, 1), 'J_': (M, N), 'Y_': (M, 1), 'W_': (M, 1), 'JtJ_': (N, N), 'inverseJtJ_': (N, N), 'JtY_': (N, 1)}}
+    B.prog.options['const_members'] = {'estimateSize_': N, 'dataSize_': D}
+    B.function('LS__computeJTJ', P, 'computeJTJ_')
+    B.function('LS__computeJTY', P, 'computeJTY_')
+    B.function('LS__chol', P, 'estimateUsingCholeskyDecomposition')
+    B.function('LS__cov', P, 'computeEstimateCovariance')
+    B.extract()
+    fl = ['LS__computeJTJ', 'LS__computeJTY', 'LS__chol', 'LS__cov']
+    # any prior state of the solver (stale normal matrix, stale inverse, stale rows D..M-1 of J and Y from an earlier, larger problem)
+    ls = B.sx.arbitrary_value(('struct', rec), 'ls_prior')
+    ls['estimateSize_'] = str(N)
+    ls['dataSize_'] = str(D)
+    J = list(ls['J_']); Y = list(ls['Y_'])           # row-major M x N, M x 1
+    a = [B.real('ac_%d' % i) for i in range(N)]       # the property's quantifier: diagonal preconditioner
+    ls['Ac_'] = [a[i] if i == j else '0.0' for i in range(N) for j in range(N)]
+    bc = list(ls['Bc_'])
+    x = B.call('LS__chol', ls)
+    obl = B.take_obligations()
+    var = B.real('data_variance')
+    cov = B.call('LS__cov', ls, var)
+    B.take_obligations()
+    # normal matrix and right-hand side over the D data rows only
+    def jtj(i, j):
+        acc = None
+        for k in range(D):
+            t = mul(J[k * N + i], J[k * N + j])
+            acc = t if acc is None else add(acc, t)
+        return acc
+    def jty(i):
+        acc = None
+        for k in range(D):
+            t = mul(J[k * N + i], Y[k])
+            acc = t if acc is None else add(acc, t)
+        return acc
+    for i in range(N):
+        for j in range(N):
+            B.vc('least_squares.normal_matrix[%d,%d].is_JtJ_over_the_data_rows' % (i, j), app('=', ls['JtJ_'][i * N + j], jtj(i, j)), functions=fl, bounded=LS_BOUND)
+        B.vc('least_squares.right_hand_side[%d].is_JtY_over_the_data_rows' % i, app('=', ls['JtY_'][i], jty(i)), functions=fl, bounded=LS_BOUND)
+    # full rank: det(JtJ) != 0; inverse normal matrix G (symbols) with JtJ G = I
+    A_ = [[jtj(i, j) for j in range(N)] for i in range(N)]
+    det = sub(mul(A_[0][0], A_[1][1]), mul(A_[0][1], A_[1][0]))
+    full = [app('not', app('=', det, '0.0'))]
+    G = [[B.real('G_%d%d' % (i, j)) for j in range(N)] for i in range(N)]
+    isinv = []
+    for i in range(N):
+        for j in range(N):
+            acc = None
+            for k in range(N):
+                t = mul(A_[i][k], G[k][j])
+                acc = t if acc is None else add(acc, t)
+            isinv.append(app('=', acc, '1.0' if i == j else '0.0'))
+    # covariance = variance * Ac * (JtJ)^-1 * Ac^T, estimate = Ac * (JtJ)^-1 * JtY + Bc
+    for i in range(N):
+        for j in range(N):
+            B.vc('least_squares.covariance[%d,%d].is_variance_times_Ac_inverse_normal_matrix_AcT' % (i, j),
+                 app('=', cov[i * N + j], mul(mul(mul(a[i], G[i][j]), a[j]), var)), full + isinv, functions=fl, timeout=60, bounded=LS_BOUND)
+    k = 0
+    for kind, cond, pc in dict.fromkeys(obl):
+        k += 1
+        B.vc('least_squares.domain.%s.%d' % (kind, k), app('=>', pc, cond), full, functions=fl, bounded=LS_BOUND)
